@@ -669,6 +669,8 @@ class CallMixin:
             return Const(self.equal(self.resolve_alt(args[0]), self.resolve_alt(args[1]), True, "operator.is_"))
         if q in ("operator.not_",) and len(args) == 1:
             return Const(not self.truthy(args[0], "operator.not_"))
+        if q in ("operator.invert", "operator.inv", "_operator.invert", "_operator.inv") and len(args) == 1 and not kwargs:
+            return Sym("unop", "Invert", self.resolve_alt(args[0]))  # same value as `~x`
         if q in ("functools.wraps", "functools.update_wrapper"):
             return RefV("builtins.__identity__")
         if q == "functools.partial" and args:
@@ -1051,10 +1053,9 @@ class CallMixin:
             items = self.concrete_items(a[0])
             if items is not None:
                 return PyList(list(reversed(items)))
-            if isinstance(a[0], (ListV, AbsList, MapV)):
-                return AbsList(a[0].elem, self.list_minlen(a[0]))
-            if isinstance(a[0], PyList):
-                return AbsList(self._elem_of_pylist(a[0]), len(a[0].items))
+            r = self.reversed_view(a[0])
+            if r is not None:
+                return r
             return Sym("reversed", a[0])
         if name == "enumerate" and a:
             items = self.concrete_items(a[0])
@@ -1062,6 +1063,10 @@ class CallMixin:
                 return PyList([PyTuple([Const(i), x]) for i, x in enumerate(items)])
             if isinstance(a[0], (ListV, AbsList, MapV)):
                 return AbsList(PyTuple([Sym("index", a[0], hint="int"), a[0].elem]), self.list_minlen(a[0]))
+        if name == "zip" and len(a) == 1 and isinstance(a[0], Sym) and a[0].op == "star":
+            cols = self.unzip(self.resolve_alt(a[0].args[0]))
+            if cols is not None:
+                return PyTuple(cols)
         if name == "zip" and a:
             its = [self.concrete_items(x) for x in a]
             if all(i is not None for i in its):
@@ -1330,6 +1335,45 @@ class CallMixin:
         if name in ("index", "count"):
             return Sym("call", Sym("attr", base, name), tuple(a), (), hint="int")
         return Sym("call", Sym("attr", base, name), tuple(a), _kw(kwargs))
+
+    def reversed_view(self, v: V) -> Optional[V]:
+        """reversed(x) / x[::-1] of an abstract sequence: the same elements; `rev` records the parity of reversals"""
+        out = None
+        if isinstance(v, (ListV, AbsList, MapV)):
+            out = AbsList(v.elem, self.list_minlen(v))
+        elif isinstance(v, PyList):
+            out = AbsList(self._elem_of_pylist(v), len(v.items) + getattr(v, "_minextra", 0))
+        if out is not None:
+            out.rev = not getattr(v, "rev", False)  # type: ignore[attr-defined]
+            out.reversed_of = v  # type: ignore[attr-defined]
+        return out
+
+    def unzip(self, v: V) -> Optional[List[V]]:
+        """zip(*rows) for an abstract list of same-width tuples: one abstract list per column"""
+        rows: List[V] = []
+        if isinstance(v, PyList):
+            rows = list(v.items) + [x for _, per in v.loop_parts for x in per]
+        elif isinstance(v, (AbsList, ListV, MapV)):
+            e = v.elem
+            rows = list(e.options) if isinstance(e, AltV) else [e]
+        if not rows or not all(isinstance(r, PyTuple) for r in rows):
+            return None
+        widths = {len(r.items) for r in rows}
+        if len(widths) != 1:
+            return None
+        cols: List[V] = []
+        for i in range(widths.pop()):
+            if isinstance(v, PyList):
+                c = PyList([r.items[i] for r in v.items])
+                c.loop_parts = [(o, [x.items[i] for x in per]) for o, per in v.loop_parts]
+                c.created_in = self._frame_id()  # type: ignore[attr-defined]
+                if getattr(v, "_minextra", 0):
+                    c._minextra = v._minextra  # type: ignore[attr-defined]
+            else:
+                opts = [r.items[i] for r in rows]
+                c = AbsList(opts[0] if len(opts) == 1 else AltV(opts), self.list_minlen(v))
+            cols.append(c)
+        return cols
 
     def _to_abs(self, l: PyList) -> V:
         """In-place widening is not possible for PyList; callers that keep the alias see the AbsList
